@@ -26,8 +26,15 @@ RULE = ('expressions come from three sources: (1) every expression of every docu
         'clone) and implies equal text; every single-node perturbation (constant +1 / next double, other symbol, DOT index, '
         'sync direction, kind swapped within the same arity, two children swapped, last child of LIST / FUN_CALL dropped; up to '
         '40 per expression) is distinguished by equal() in both directions; get(i) is called for every i < get_size() of every '
-        'node under ASan. evaluations counts expressions; non-trivial / distinct is counted per input (model text, query text, '
+        'node under ASan; type_t::subst (the substitution P.x relies on) replaces exactly the occurrences of a template parameter in the types of the template\'s variables, is pure and is the identity for q:=q (generated models and a fixed model with parameters in bounds, array sizes, struct fields and typedefs). evaluations counts expressions; non-trivial / distinct is counted per input (model text, query text, '
         'list of tree texts) that yields at least one expression with >= 2 nodes; the evidence also lists the node kinds seen.')
+
+
+PARAM_MODEL = ('<nta><declaration>const int K = 2; int gv;</declaration><template><name>T</name><parameter>const int N, const int M, int &amp;r</parameter>'
+               '<declaration>int[0,N] a; int[0,N+1] b; int[-N,2*N] c; int[0,(N&gt;M?N:M)] d; int arr[N]; int arr1[N+1]; int m[N][M]; bool g[N*2]; '
+               'struct { bool g[N]; int[0,M-1] h; } s; typedef int[0,N-1] idx_t; idx_t ix; int byidx[idx_t]; const int L = N + M; int[0,L] e; clock x[N];</declaration>'
+               '<location id="id0"><name>L0</name></location><init ref="id0"/></template>'
+               '<system>P = T(3, 5, gv); Q = T(K, K + 1, gv); system P, Q;</system></nta>')
 
 
 def laws_of(resp):
@@ -100,6 +107,20 @@ def worker(chk, wi, nw):
         return digest(chk, stats, laws, 'tree', None, {'kind': 'request', 'steps': [step]})
 
     quick = chk.tier == 'quick'
+    if wi == 0:
+        # template variables whose types mention the template parameters in every position (bounds, array sizes, struct fields)
+        step = dict(entry='xml-buffer', builder='document', newxta=1, input=PARAM_MODEL, dump='none', actions='laws')
+        r = orc.request([step])
+        if 'crash' in r:
+            stats.violations.append({'descriptor': {'law': 'crash:' + oracle.crash_descriptor(r['crash'])['kind'], 'root': 'param-model'}, 'what': r['crash'].get('stderr', '')[:1500],
+                                     'case': {'kind': 'request', 'steps': [step]}})
+        else:
+            laws = r['steps'][0]['laws']
+            stats.extra['type_substitutions'] += laws.get('type_substitutions', 0)
+            stats.case('param-model', nontrivial=True, classes=['source:parametric-types'], sample={'source': 'parametric types', 'type_substitutions': laws.get('type_substitutions')})
+            v = digest(chk, stats, laws, 'model', None, {'kind': 'request', 'steps': [step]})
+            if v:
+                stats.violations.append({'descriptor': v[0], 'what': v[1], 'case': v[2]})
     common.run_hypothesis(chk, stats, st.tuples(M.models(), NOISE), model_test, 60 if quick else 1500, chk.seed * 1000 + wi)
     forms = Q.query_forms()
     for k, (name, (flavour, strat)) in enumerate(sorted(forms.items())):
